@@ -2,12 +2,13 @@
 EXTENDS RenderIterCtor
 VARIABLES c, done
 Init == /\ c \in {x \in Cases : Relevant(x)} /\ done = FALSE
-        /\ PrintT(<<"TABLE", ToJson([case |-> c, verdict |-> Verdict(c), loop |-> Loop(c), cached |-> Cached(c)])>>)
+        /\ PrintT(<<"TABLE", ToJson([case |-> c, verdict |-> Verdict(c), loop |-> Loop(c), cached |-> Cached(c),
+                                    survives |-> CallerDataSurvives(c)])>>)
 Next == ~done /\ done' = TRUE /\ UNCHANGED c
 Spec == Init /\ [][Next]_<<c, done>>
 \* an accepted INDEFINITE iterator never caches and loops once
 \* the verdict never depends on whether the sizes fit the terminal
-FitsIrrelevant == Verdict(c) = Verdict([c EXCEPT !.fits = "yes"])
+FitsIrrelevant == c.fits # "padding-raises" => Verdict(c) = Verdict([c EXCEPT !.fits = "yes"])
 \* unusable render data is rejected whoever owns it
 OwnershipIrrelevant == Verdict(c) = Verdict([c EXCEPT !.finalize = TRUE])
 IndefiniteSane == (Verdict(c) = "ok" /\ c.frames = 0) => (Loop(c) = 1 /\ ~Cached(c))
